@@ -897,6 +897,6 @@ func init() {
 		CPUBudget:     300,
 		MinNontrivial: func(tier string) int { return 20000 },
 		RequiredCounters: []string{"names_bare", "names_quoted", "names_dquoted", "candidates_not_admissible", "identifiers_checked", "enumerated_strings", "random_names",
-			"single_compiled", "sym_ids_checked", "token_go_files_parsed", "token_ts_files_scanned", "token_constants_matched", "designed_pairs", "collisions_reported_same_id", "multi_compiled", "generated_symbols_checked"},
+			"single_compiled", "sym_ids_checked", "token_go_files_parsed", "token_ts_files_scanned", "token_constants_matched", "designed_pairs", "collisions_reported_same_id", "multi_compiled"},
 	})
 }
